@@ -395,3 +395,92 @@ func structuredPayloads() [][]byte {
 	return out
 }
 
+// verifyDecoded reads an accepted plain (black on white) barcode with the reference
+// reader of its family and compares the result with the request; "" means it agrees.
+// It needs no Ctx, so goroutines of the concurrency workloads can call it inline.
+func verifyDecoded(req Req, bc barcode.Barcode) (msg string) {
+	defer func() {
+		if pv := recover(); pv != nil {
+			msg = fmt.Sprintf("accessor panics: %v", pv)
+		}
+	}()
+	s := string(req.S)
+	switch req.Fam {
+	case "qr", "datamatrix", "aztec", "pdf417":
+		got, err := decodedPayload(req, bc)
+		if err != nil {
+			return "symbol does not decode: " + err.Error()
+		}
+		if string(got) != s {
+			return fmt.Sprintf("symbol decodes to %s", short(string(got)))
+		}
+		if bc.Content() != s {
+			return fmt.Sprintf("Content() = %s", short(bc.Content()))
+		}
+		return ""
+	}
+	bits, err := row1D(bc)
+	if err != nil {
+		return err.Error()
+	}
+	var decoded string
+	want := s
+	switch req.Fam {
+	case "ean":
+		want = eanExpect(s)
+		decoded, err = refdec.DecodeEAN(bits)
+		if err == nil {
+			if cs, ok := bc.(barcode.BarcodeIntCS); !ok || cs.CheckSum() != int(want[len(want)-1]-'0') {
+				return "CheckSum() is not the check digit"
+			}
+			if bc.Content() != want {
+				return fmt.Sprintf("Content() = %q, want %q", bc.Content(), want)
+			}
+		}
+	case "code128", "code128nocs":
+		var res *refdec.Code128Result
+		res, err = refdec.DecodeCode128(bits, req.Fam == "code128")
+		if err == nil {
+			decoded = res.Text
+			if res.Check >= 0 && res.Check != res.Expected {
+				return fmt.Sprintf("check character %d, want %d", res.Check, res.Expected)
+			}
+		}
+	case "code39":
+		var res *refdec.Code39Result
+		res, err = refdec.DecodeCode39(bits, req.int(0) != 0)
+		if err == nil {
+			decoded = res.Data
+			if res.Check >= 0 && res.Check != res.Expected {
+				return fmt.Sprintf("check character %d, want %d", res.Check, res.Expected)
+			}
+			if req.int(1) != 0 {
+				decoded, err = refdec.Code39FullASCII(res.Data)
+			}
+		}
+	case "code93":
+		var res *refdec.Code93Result
+		res, err = refdec.DecodeCode93(bits, req.int(0) != 0)
+		if err == nil {
+			if res.C >= 0 && (res.C != res.ExpC || res.K != res.ExpK) {
+				return fmt.Sprintf("check characters %d,%d, want %d,%d", res.C, res.K, res.ExpC, res.ExpK)
+			}
+			if req.int(1) != 0 {
+				decoded, err = refdec.Code93FullASCII(res.Values)
+			} else {
+				decoded = refdec.Code93Text(res.Values)
+			}
+		}
+	case "codabar":
+		decoded, err = refdec.DecodeCodabar(bits)
+	case "2of5":
+		decoded, err = refdec.DecodeTwoOfFive(bits, req.int(0) != 0)
+	}
+	if err != nil {
+		return "symbol does not decode: " + err.Error()
+	}
+	if decoded != want {
+		return fmt.Sprintf("symbol decodes to %s, want %s", short(decoded), short(want))
+	}
+	return ""
+}
